@@ -157,6 +157,42 @@ def run(ctx):
             break
 
     rep.lap('reader')
+    # ---------------- (b') the numbers and the word helpers in the source text --------------
+    # tools/py2coq.py reads MAGIC_NUMBER / CURRENT_VERSION / to_bytes / to_integer from preprocess.py, the kernels'
+    # copies of the constants from ndl_parallel.pyx and the error codes from error_codes.pxd of the tree under test; the
+    # theorems of coq/src/SrcFmtProps.v (writer, reader and header decision over the SOURCE's numbers are the model and
+    # round-trip) are re-checked against them, and the generated definitions are run by the VM on words and byte strings
+    # the running module converted
+    words = [0, 1, 255, 256, 65535, 65536, 16777216, 14159265, 2263, 2**32 - 1] + [rng.randrange(2**32) for _ in range(20)]
+    strings = [[], [7], [1, 2], [1, 2, 3], [0, 0, 0, 1], [255] * 4, [1, 2, 3, 4, 5]] + \
+              [[rng.randrange(256) for _ in range(4)] for _ in range(20)]
+    status, cres = sc.run_worker("binfmt_worker", {"jobs": [{"kind": "consts", "words": words, "strings": strings}]})
+    if status != "ok":
+        raise RuntimeError("binfmt worker failed: %r" % (cres,))
+    # (the definitions of SrcFmtProofs.v repeated, so that the cases still run when a proof no longer compiles)
+    cases_v = ("From PV Require Import Bytes.\n"
+               "Fixpoint le_bytes (w : nat) (n : Z) : list Z := match w with O => [] | S w' => n mod 256 :: le_bytes w' (n / 256) end.\n"
+               "Definition src_to_bytes (n : Z) : list Z := let l := le_bytes (Z.to_nat fmt_to_bytes_width_src) n in "
+               "if fmt_to_bytes_little_src then l else rev l.\n"
+               "Definition src_to_integer (bs : list Z) : Z := to_integer (if fmt_to_integer_little_src then bs else rev bs).\n"
+               "Eval vm_compute in ([[fmt_py_MAGIC_NUMBER_src; fmt_py_CURRENT_VERSION_src; "
+               "fmt_py_CURRENT_VERSION_WITH_FREQ_src]] ++ map src_to_bytes [%s] ++ map (fun b => [src_to_integer b]) [%s]).\n"
+               % ("; ".join(map(str, words)), "; ".join("[%s]" % "; ".join(map(str, b)) for b in strings)))
+    sd = core.source_derived(sc, "Fmt", cases_v)
+    core.fold_source_derived(ctx, sd, "the constants and word helpers of the binary format")
+    if sd["translated"] and sd["cases_output"] is not None and cres[0]["status"] == "ok":
+        v = cres[0]["value"]
+        want = [[v["magic"], v["version"], v["with_freq"]]] + v["to_bytes"] + [[x] for x in v["to_integer"]]
+        got = core.parse_coq_list(sd["cases_output"])
+        agree = got == want
+        rep.note("source_constants_run_by_the_vm", {"words": len(words), "byte_strings": len(strings),
+                                                     "agrees_with_the_running_module": agree})
+        if not agree:
+            core.log("NOTE: the format constants / word helpers read from the source text and the running module disagree")
+            for t in ctx.props["theorems"]:
+                if t.get("source_derived"):
+                    t["assumptions"] = None
+    rep.lap('format_source')
     # ---------------- (c) kernels consume the chunks -----------------------------
     kcases = []
     for k in range(160 if thorough else 12):
